@@ -17,10 +17,12 @@ pub const MAGIC: i32 = 0x5eed;
 #[derive(Clone, Debug, Default)]
 pub struct Prog {
     pub bytes: Vec<u8>,
-    /// (params, results) of local function k (function index k+1)
+    /// (params, results) of local function k (function index k+nimp)
     pub sigs: Vec<(usize, usize)>,
     pub has_exn: bool,
     pub tick_global: u32,
+    /// imported functions (1 = host.probe only; 2 = host.probe + the never-called host.unused)
+    pub nimp: u32,
 }
 
 #[derive(Clone, Copy, PartialEq)]
@@ -42,6 +44,8 @@ struct Cx<'r> {
     loop_depth: usize,
     labels: Vec<Lbl>,
     this: usize,
+    /// function index of local function 0 (= number of imported functions)
+    fbase: u32,
     sigs: Vec<(usize, usize)>,
     type_of_sig: Vec<u32>,
     has_exn: bool,
@@ -59,6 +63,18 @@ impl<'r> Cx<'r> {
         self.out.push(I::I64Const(1));
         self.out.push(I::I64Add);
         self.out.push(I::GlobalSet(TICK));
+    }
+
+    /// a tick, in 1 of `one_in` cases wrapped in a block of its own (`block; <tick>; end`): a construct that a block
+    /// alternate can replace by a plain copy of the tick without changing what the program does
+    fn tick_maybe_wrapped(&mut self, one_in: u32) {
+        if self.rng.chance(1, one_in) {
+            self.out.push(I::Block(BlockType::Empty));
+            self.tick();
+            self.out.push(I::End);
+        } else {
+            self.tick();
+        }
     }
 
     fn expr(&mut self, depth: usize) {
@@ -167,7 +183,7 @@ impl<'r> Cx<'r> {
             if self.stmt(budget) {
                 return true;
             }
-            self.tick();
+            self.tick_maybe_wrapped(12);
         }
         false
     }
@@ -356,7 +372,7 @@ impl<'r> Cx<'r> {
                         self.out.push(I::I32Const(j as i32));
                         self.out.push(I::ReturnCallIndirect { type_index: self.type_of_sig[j], table_index: 0 });
                     } else {
-                        self.out.push(I::ReturnCall(j as u32 + 1));
+                        self.out.push(I::ReturnCall(j as u32 + self.fbase));
                     }
                 } else {
                     self.push_results();
@@ -390,7 +406,7 @@ impl<'r> Cx<'r> {
                     if self.rng.bool() {
                         self.out.push(I::RefNull(wasm_encoder::HeapType::Abstract { shared: false, ty: wasm_encoder::AbstractHeapType::Func }));
                     } else {
-                        self.out.push(I::RefFunc(self.this as u32 + 1));
+                        self.out.push(I::RefFunc(self.this as u32 + self.fbase));
                     }
                     self.out.push(I::BrOnNull(d));
                     self.out.push(I::Drop);
@@ -416,7 +432,7 @@ impl<'r> Cx<'r> {
             self.out.push(I::I32Const(j as i32));
             self.out.push(I::CallIndirect { type_index: self.type_of_sig[j], table_index: 0 });
         } else {
-            self.out.push(I::Call(j as u32 + 1));
+            self.out.push(I::Call(j as u32 + self.fbase));
         }
         for _ in 0..self.sigs[j].1 {
             if self.rng.bool() {
@@ -433,6 +449,8 @@ impl<'r> Cx<'r> {
 pub fn generate(rng: &mut Rng) -> Prog {
     let nfuncs = rng.range(1, 5);
     let has_exn = rng.chance(1, 3);
+    // 1 in 4 programs import a second function that nothing calls or references (it can be deleted)
+    let nimp: u32 = if rng.chance(1, 4) { 2 } else { 1 };
     let sigs: Vec<(usize, usize)> = (0..nfuncs).map(|_| (rng.range(1, 3), rng.below(3))).collect();
     let mut module = Module::new();
     // types: 0 = (i32)->() probe ; then one per distinct sig; mv block type ()->(i32 i32); tag type ()->()
@@ -466,6 +484,9 @@ pub fn generate(rng: &mut Rng) -> Prog {
     module.section(&types);
     let mut imports = ImportSection::new();
     imports.import("host", "probe", EntityType::Function(0));
+    if nimp == 2 {
+        imports.import("host", "unused", EntityType::Function(0));
+    }
     module.section(&imports);
     let mut funcs = FunctionSection::new();
     for t in &type_of_sig {
@@ -494,11 +515,11 @@ pub fn generate(rng: &mut Rng) -> Prog {
     exports.export("g2", ExportKind::Global, 2);
     exports.export("mem", ExportKind::Memory, 0);
     for k in 0..nfuncs {
-        exports.export(&format!("f{}", k + 1), ExportKind::Func, k as u32 + 1);
+        exports.export(&format!("f{}", k + 1), ExportKind::Func, k as u32 + nimp);
     }
     module.section(&exports);
     let mut elems = ElementSection::new();
-    elems.active(None, &ConstExpr::i32_const(0), Elements::Functions(Cow::Owned((1..=nfuncs as u32).collect())));
+    elems.active(None, &ConstExpr::i32_const(0), Elements::Functions(Cow::Owned((nimp..nimp + nfuncs as u32).collect())));
     module.section(&elems);
     let mut code = CodeSection::new();
     for k in 0..nfuncs {
@@ -519,6 +540,7 @@ pub fn generate(rng: &mut Rng) -> Prog {
             loop_depth: 0,
             labels: vec![],
             this: k,
+            fbase: nimp,
             sigs: sigs.clone(),
             type_of_sig: type_of_sig.clone(),
             has_exn,
@@ -526,7 +548,7 @@ pub fn generate(rng: &mut Rng) -> Prog {
             calls_left: 3,
         };
         let _ = cx.nparams;
-        cx.tick();
+        cx.tick_maybe_wrapped(5);
         let n = cx.rng.range(2, 7);
         let diverged = cx.stmts(n, 3);
         if !diverged {
@@ -544,7 +566,7 @@ pub fn generate(rng: &mut Rng) -> Prog {
     let payload = rng.bytes(8 + n);
     data.active(0, &ConstExpr::i32_const(4), payload);
     module.section(&data);
-    Prog { bytes: module.finish(), sigs, has_exn, tick_global: 0 }
+    Prog { bytes: module.finish(), sigs, has_exn, tick_global: 0, nimp }
 }
 
 pub fn generate_valid(rng: &mut Rng) -> Result<Prog, String> {
